@@ -149,9 +149,11 @@ class SweepReplayer:
             self._ms[(M, d)] = ms
         return self._ms[(M, d)]
 
-    def sweep(self, case, kinds, e, pis, b, trans):
+    def sweep(self, case, kinds, e, pis, b, trans, entry=False):
         """trans: list of dict(u, zs, rc, fol, ok, acc, rec).  Returns None if the code reproduced the spec's
-        successor for every walker, else a description of the first difference."""
+        successor for every walker, else a description of the first difference.  entry=True: the sweep is made
+        through the public entry point tempest.mcmc.parallel_mcmc(sample="rwm") instead of the runner class (the
+        initial step size, which the entry point does not expose, is pinned on the class for the call)."""
         np = self.np
         M, d = case["M"], case["d"]
         n = len(trans)
@@ -217,18 +219,26 @@ class SweepReplayer:
             pos["r"] += 1
             return np.array(rs)
 
-        runner = self.mcmc.RWMRunner(u0, u0.copy(), l0, b0, np.zeros(n, dtype=int), b / 2.0, self.mode_stats(M, d), ll,
-                                     lambda v: v, None, 1.0 / d, 1.0 / d, per, ref, False)
-        runner.sigmas[:] = 1.0
         o_randn, o_rand = np.random.randn, np.random.rand
-        np.random.randn, np.random.rand = randn, rand
+        o_init = self.mcmc.RWMRunner._initialize_sigmas
         self.calls += 1
         try:
-            out = runner.run()
+            if entry:
+                self.mcmc.RWMRunner._initialize_sigmas = lambda r_: np.ones(r_.n_clusters)
+                np.random.randn, np.random.rand = randn, rand
+                out = self.mcmc.parallel_mcmc(u0, u0.copy(), l0, b0, np.zeros(n, dtype=int), b / 2.0, self.mode_stats(M, d), ll, lambda v: v,
+                                              progress_bar=None, n_steps=1.0 / d, n_max=1.0 / d, sample="rwm", periodic=per, reflective=ref, verbose=False)
+            else:
+                runner = self.mcmc.RWMRunner(u0, u0.copy(), l0, b0, np.zeros(n, dtype=int), b / 2.0, self.mode_stats(M, d), ll,
+                                             lambda v: v, None, 1.0 / d, 1.0 / d, per, ref, False)
+                runner.sigmas[:] = 1.0
+                np.random.randn, np.random.rand = randn, rand
+                out = runner.run()
         except Exhausted:
             return "the code drew more innovations than the specification's behaviour (redraw where the spec rejects)"
         finally:
             np.random.randn, np.random.rand = o_randn, o_rand
+            self.mcmc.RWMRunner._initialize_sigmas = o_init
         if pos["z"] != len(zq):
             return f"the code consumed {pos['z']} innovation vectors, the specification's behaviour has {len(zq)}"
         if pos["r"] != 1:
@@ -568,6 +578,97 @@ def replay_tpcn(ck, np, mcmc, modes_mod, modes, M, res):
     return cnt
 
 
+def entry_tpcn(ck, np, mcmc, modes_mod, modes, M, res, limit):
+    """KernelTpcn behaviours through the public entry point tempest.mcmc.parallel_mcmc(sample="tpcn"): three walkers per
+    call, gamma / randn / rand scripted, initial step size pinned to 3/5 on the class for the call.  Two variants:
+    accept (r = 0: the successor is the folded proposal, the whole record moves) and reject (the likelihood is -inf
+    away from the current points: the successor is the current record).  -> counters"""
+    h = 1.0 / (2 * M)
+    groups = {}
+    for st in iter_states(res.dump_path, ("done",)):
+        if not st["amb"] and len(st["zs"]) == 1:
+            groups.setdefault((st["mi"], tuple(st["kinds"])), []).append(st)
+    cnt = dict(sweeps=0, walkers=0, folded=0)
+    rng = random.Random(ck.seed + 77)
+    for (mi, kinds), sts in sorted(groups.items()):
+        mode = modes[mi - 1]
+        d = mode["d"]
+        rng.shuffle(sts)
+        sts = sts[:limit]
+        per = [i for i in range(d) if kinds[i] == "periodic"] or None
+        ref = [i for i in range(d) if kinds[i] == "reflective"] or None
+        Lm = np.array(mode["L"], dtype=float)
+        ms = modes_mod.ModeStatistics(np.array([[m * h for m in mode["m"]]]), (h * h * (Lm @ Lm.T)).reshape(1, d, d), np.array([float(mode["nu"])]))
+        for i in range(0, len(sts), 3):
+            chunk = sts[i:i + 3]
+            n = len(chunk)
+            variant = "accept" if (i // 3) % 2 == 0 else "reject"
+            U = np.array([[c * h for c in s["c"]] for s in chunk])
+            cur = {tuple(r) for r in U.tolist()}
+
+            def lik(xb, _v=variant, _cur=cur):
+                xb = np.asarray(xb, dtype=float)
+                out = -xb.sum(axis=1)
+                if _v == "reject":
+                    out = np.array([o if tuple(r) in _cur else -np.inf for o, r in zip(out, xb.tolist())])
+                return out, 2.0 * xb + 1.0
+
+            l0, b0 = lik(U)
+            gq = [4.0 / (s["sq2"] * s["sq2"]) for s in chunk]
+            zq = [np.array(s["zs"][0], dtype=float) for s in chunk]
+            pos = {"g": 0, "z": 0, "r": 0}
+
+            def gamma(shape=None, scale=None, size=None):
+                pos["g"] += 1
+                if pos["g"] > len(gq):
+                    raise Exhausted()
+                return gq[pos["g"] - 1]
+
+            def randn(*sh):
+                pos["z"] += 1
+                if pos["z"] > len(zq):
+                    raise Exhausted()
+                return zq[pos["z"] - 1].copy()
+
+            def rand(*sh):
+                pos["r"] += 1
+                return np.zeros(sh)
+
+            o = (np.random.gamma, np.random.randn, np.random.rand, mcmc.TPCNRunner._initialize_sigmas)
+            np.random.gamma, np.random.randn, np.random.rand = gamma, randn, rand
+            mcmc.TPCNRunner._initialize_sigmas = lambda r_: np.ones(r_.n_clusters) * 0.6
+            bad = None
+            try:
+                out = mcmc.parallel_mcmc(U, U.copy(), l0, b0, np.zeros(n, dtype=int), 1.0, ms, lik, lambda v: v, progress_bar=None,
+                                         n_steps=1.0 / d, n_max=1.0 / d, sample="tpcn", periodic=per, reflective=ref, verbose=False)
+            except Exhausted:
+                bad = "the code drew more innovations than the specification's behaviour"
+            finally:
+                np.random.gamma, np.random.randn, np.random.rand, mcmc.TPCNRunner._initialize_sigmas = o
+            cnt["sweeps"] += 1
+            cnt["walkers"] += n
+            if any(list(s["prop"]) != list(s["fol"]) for s in chunk):
+                cnt["folded"] += 1
+            if bad is None:
+                if (pos["g"], pos["z"], pos["r"]) != (n, n, 1) or out[6] != 1:
+                    bad = f"gamma/randn/rand calls {pos}, iterations {out[6]} (want {n}, {n}, 1, 1)"
+                elif variant == "reject":
+                    if not (np.array_equal(out[0], U) and np.array_equal(out[1], U) and np.array_equal(out[2], l0) and np.array_equal(out[3], b0)):
+                        bad = f"rejected sweep changed the records: u={out[0].tolist()} (was {U.tolist()})"
+                else:
+                    want = np.array([[float(Fraction(f, PD * 2 * M)) for f in s["fol"]] for s in chunk])
+                    if out[0].shape != want.shape or np.max(np.abs(out[0] - want)) > 1e-12:
+                        bad = f"accepted proposal u={out[0].tolist()}, specification {want.tolist()}"
+                    else:
+                        wl, wb = lik(out[0])
+                        if not (np.array_equal(out[1], out[0]) and np.array_equal(out[2], wl) and np.array_equal(out[3], wb)):
+                            bad = "x / logl / blobs of the accepted record are not those of the accepted point"
+            if bad:
+                ck.violation("entry:parallel_mcmc:tpcn", f"one sweep through tempest.mcmc.parallel_mcmc(sample='tpcn', periodic={per}, reflective={ref}) differs from "
+                             f"KernelTpcn.tla ({variant} variant): {bad}", {"mode": mode, "kinds": list(kinds), "states": chunk, "variant": variant, "M": M})
+    return cnt
+
+
 def folded_identity(modes, M, res, kimg):
     """Image sums of the specification's tables with exact fractions and a rigorous tail bound.
     -> (pairs examined, pairs where the identity is refuted, the most violating pair)"""
@@ -771,7 +872,7 @@ def main():
     groups = {}
     for t in todo:
         groups.setdefault((t["ci"], t["kinds"], t["e"], t["b"]), []).append(t)
-    replayed = 0
+    replayed = entry_n = entry_folded = 0
     nontrivial = set()
     for gk in sorted(groups):
         L = groups[gk]
@@ -784,6 +885,16 @@ def main():
                 culprit = next(((t, mm) for t in chunk for mm in [one(t)] if mm), (chunk[0], m))
                 ck.violation("replay:sweep", f"one sweep of RWMRunner.run() differs from Kernel.tla: {culprit[1]}",
                              {"transitions": chunk, "case": cases[gk[0] - 1], "joint_message": m})
+            elif any(kd != "hard" for kd in gk[1]) or (i // 3) % 4 == 0:
+                # the same behaviours through the public entry point (boundary arguments travel through parallel_mcmc)
+                m = rep.sweep(cases[gk[0] - 1], gk[1], gk[2], chunk[0]["pis"], gk[3], chunk, entry=True)
+                entry_n += len(chunk)
+                if any(kd != "hard" for kd in gk[1]) and any(tuple(c + 2 * z for c, z in zip(t["u"], t["zs"][-1])) != t["fol"] for t in chunk):
+                    entry_folded += 1
+                if m:
+                    ck.violation("entry:parallel_mcmc:rwm", f"one sweep through tempest.mcmc.parallel_mcmc(sample='rwm', periodic={[j for j, kd in enumerate(gk[1]) if kd == 'periodic']}, "
+                                 f"reflective={[j for j, kd in enumerate(gk[1]) if kd == 'reflective']}) differs from Kernel.tla although RWMRunner.run() constructed directly "
+                                 f"reproduces it: {m}", {"transitions": chunk, "case": cases[gk[0] - 1]})
         for t in L:
             raw = tuple(c + 2 * z for c, z in zip(t["u"], t["zs"][-1]))
             if len(t["zs"]) > 1 or not t["ok"] or raw != t["fol"] or (t["ok"] and t["pis"][idx_cells(t["fol"], cases[gk[0] - 1]["M"])] != t["pis"][idx_cells(t["u"], cases[gk[0] - 1]["M"])]):
@@ -813,7 +924,7 @@ def main():
                      f"{cex}. Stationary law on the flat M=8 lattice: {quant and quant['stationary_float']} instead of 0.125 each"
                      + ("; confirmed by simulating the real runner" if conf else ""),
                      {"tlc_counterexample": cex, "quantification": quant, "continuous_simulation_rwm_hard": sims.get("rwm:hard"), "simulation_confirms": conf})
-    ex_a = dict(rule_followed_by_code=follows, lattice_rows_cross_checked=rows_i + rows_c, accept_masks_seen=sorted(str(m) for m in rep.masks if m),
+    ex_a = dict(rule_followed_by_code=follows, lattice_transitions_through_parallel_mcmc=entry_n, entry_sweeps_with_folded_proposal=entry_folded, lattice_rows_cross_checked=rows_i + rows_c, accept_masks_seen=sorted(str(m) for m in rep.masks if m),
                 probes={"intended_out_reject": len(probe_i), "impl_redraw": len(probe_c)}, run_calls=rep.calls, hardwall_quantification=quant)
 
     # ================================================================= (b) tpCN identity
@@ -834,6 +945,7 @@ def main():
         rv.cleanup()
     dbg(ck, "tpcn TLC done")
     cnt = replay_tpcn(ck, np, mcmc, modes_mod, tmodes, 4, r_t)
+    cnt["entry"] = entry_tpcn(ck, np, mcmc, modes_mod, tmodes, 4, r_t, 60 if quick else 600)
     npairs, nbad, worst = folded_identity(tmodes, 4, r_t, kimg)
     r_t.cleanup()
     ex.shutdown()
@@ -867,8 +979,8 @@ def main():
     ck.finish(dict(ex_a, **{
         "states": states,
         "transitions": trans_n,
-        "traces_validated_against_impl": replayed + len(probe_i) + len(probe_c) + cnt["propose"] + cnt["factor_pairs"],
-        "evaluations": rep.calls + cnt["propose"] + cnt["factor_pairs"],
+        "traces_validated_against_impl": replayed + len(probe_i) + len(probe_c) + cnt["propose"] + cnt["factor_pairs"] + cnt["entry"]["walkers"],
+        "evaluations": rep.calls + cnt["propose"] + cnt["factor_pairs"] + cnt["entry"]["sweeps"],
         "distinct_nontrivial": len(nontrivial) + cnt["redraws"] + cnt["folded"],
         "rule": "lattice behaviours (u, increment sequence, accept-uniform class) enumerated by TLC; non-trivial = a redraw, an out-of-cube or folded proposal, or an "
                 "acceptance ratio != 1; tpCN: behaviours with a redraw or a folded coordinate",
